@@ -241,6 +241,7 @@ func (p *Parser) nextKeepSpaces() {
 }
 
 func (p *Parser) next() {
+restart:
 	if p.r == runeEOF {
 		p.tok = _EOF
 		return
@@ -337,7 +338,9 @@ skipSpace:
 			} else {
 				p.litBs = nil
 			}
-			p.next()
+			// Read the token after the comment; not a recursive call,
+			// as an input may hold millions of comment lines in a row.
+			goto restart
 		case '[':
 			// `[` only starts an `[idx]=val` element when it begins a new word;
 			// otherwise it continues a glob like `foo[0-9]`.
